@@ -779,6 +779,18 @@ fn extract<'tcx>(tcx: TyCtxt<'tcx>, name: &str) -> J {
         if matches!(kind, DefKind::Fn | DefKind::AssocFn) {
             v.push(("vis", s(vis_str(tcx, did))));
             v.push(("generics", n(tcx.generics_of(did).count() as i64)));
+            {
+                // names of the type parameters in generic-argument order (parent impl first)
+                let mut names = Vec::new();
+                let g = tcx.generics_of(did);
+                for i in 0..g.count() {
+                    let p = g.param_at(i, tcx);
+                    if matches!(p.kind, ty::GenericParamDefKind::Type { .. }) {
+                        names.push(s(p.name));
+                    }
+                }
+                v.push(("type_params", J::Arr(names)));
+            }
         }
         if let Some(im) = parent_impl {
             let st = tcx.type_of(im).instantiate_identity().skip_norm_wip();
